@@ -56,7 +56,7 @@ theorem pgl_step (G : GCtx) (n : Nat) (hPE : PE G n) (hPB : PGBS G n) (hPL : PGL
     cases r1 with
     | error ce' => exact SimGS.of_exprError _ hrel hls h1
     | ok v =>
-      obtain ⟨hfr, mem1, hrun, hml⟩ := h1
+      obtain ⟨hfr, mem1, ov, hov, hrun, hml⟩ := h1
       have hsp1 := hsp.world st1 hfr hrun.inv
       have hfr' : st1 = { spec with scopes := st1.scopes, out := st1.out, heap := st1.heap } := by rw [hfr]
       have hrel1 : GRel G A env.scopes env.vm st1.scopes mem1 := by rw [hfr]; exact hrel.memLe hml
@@ -64,7 +64,7 @@ theorem pgl_step (G : GCtx) (n : Nat) (hPE : PE G n) (hPB : PGBS G n) (hPL : PGL
       rename_i bv
       have hjif := Runs.of_runsTo (fr := G.fr) (fun it_ => RunsTo.of_exec1 (fun k =>
         reach_jumpIfFalse G.code G.lim (baseOf (withIt G.s it_) A.fn A.rest A.mp st1.world) _ k stk mem1 ⟨A.fn, 0⟩ A.rest A.c rfl
-          hA.code (A.lab after.1) sp bv none ijif))
+          hA.code (A.lab after.1) sp bv ov ijif))
       cases bv with
       | false =>
         refine ⟨hfr', mem1, (hrun.trans hjif).cast ?_, hml.mono (by omega), hrel1⟩
@@ -125,8 +125,8 @@ theorem pgl_step (G : GCtx) (n : Nat) (hPE : PE G n) (hPB : PGBS G n) (hPL : PGL
             simp only []
             exact again s' mem2 hfr2 (hrunB.cast ehead) hml2 (by simpa using hsr)
           case ret v =>
-            obtain ⟨hrt, hfr2, mem2, hrunB, hml2⟩ := hb
-            exact ⟨hrt, by rw [hfr2, hfr], mem2, hpre.trans hrunB, hml0.trans hml2⟩
+            obtain ⟨hrt, hfr2, mem2, o2, ho2, hrunB, hml2⟩ := hb
+            exact ⟨hrt, by rw [hfr2, hfr], mem2, o2, ho2, hpre.trans hrunB, hml0.trans hml2⟩
           case fatal kd m fsp => exact fun hk => hpre.fatal (hb hk)
           case unsupported => trivial
           case timeout => trivial
@@ -208,8 +208,8 @@ theorem pgl_step (G : GCtx) (n : Nat) (hPE : PE G n) (hPB : PGBS G n) (hPL : PGL
         simp only []
         exact again s' mem2 hfr2 (hrunB.cast ehead) hml2 (by simpa using hsr)
       case ret v =>
-        obtain ⟨hrt, hfr2, mem2, hrunB, hml2⟩ := hb
-        exact ⟨hrt, hfr2, mem2, hrunB, hml2⟩
+        obtain ⟨hrt, hfr2, mem2, o2, ho2, hrunB, hml2⟩ := hb
+        exact ⟨hrt, hfr2, mem2, o2, ho2, hrunB, hml2⟩
       case fatal kd m fsp => exact hb
       case unsupported => trivial
       case timeout => trivial
